@@ -16,6 +16,10 @@ TRUSTED = ['correspondence harness (pv.engine, pv.proto, pv.props._w5ts) and gen
 ASSUMPTIONS = ['pandas: ffill/bfill(limit), fillna(value, limit), boolean-mask selection, last_valid_index, label slice .loc[t:] on a '
                'sorted index, concat(axis=1) over one index behave as the reference functions of PygModel/Fill.lean define (sampled)',
                'a Series is modelled as a one-column frame; a numpy array as column values behind a RangeIndex',
+               'pandas objects carry a STRICTLY INCREASING index wherever a method looks at labels (ffill_na, ffill_0, fnna, nona(edge) compare '
+               'labels with the label of the last / first valid row): the quantifier ranges over values, NaN patterns, methods and limits, not '
+               'over index orders. On a decreasing index ffill_0 overwrites a value in code and model alike (theorem ffill_tail_needs_sorted). '
+               'Decreasing / shuffled / repeated-label indexes are generated for the methods that never look at labels (numbers, ffill, bfill, nona)',
                'float values are exact multiples of 1/4; dtype changes, axis=1, interpolation methods, pad, date methods, '
                'nona(value != nan) are not modelled; limit=0 (outside the quantifier) is not generated',
                'input immutability: proved on the object store PygModel/FillAlias.lean under the assumption, observed by snapshot on every line, that pandas ffill / fillna / bfill / boolean selection / .loc / concat return new objects']
@@ -92,6 +96,25 @@ def index(rng, n):
     return pd.DatetimeIndex([W.day(d) for d in days])
 
 
+LABEL_FREE = ['ffill', 'bfill', 'backfill', 'nona', 'c:0', 'c:6', 'c:-3']     # methods that never compare index labels
+
+
+def reorder_index(rng, x):
+    """the same values over a decreasing / shuffled / repeated-label index (values stay where they are)"""
+    n = len(x)
+    how = rng.choice(['decreasing', 'shuffled', 'repeated'])
+    idx = list(x.index)
+    if how == 'decreasing':
+        idx = idx[::-1]
+    elif how == 'shuffled':
+        rng.shuffle(idx)
+    else:
+        idx = sorted(rng.choice(idx) for _ in range(n))
+    y = x.copy()
+    y.index = pd.DatetimeIndex(idx)
+    return y, how
+
+
 def rand_methods(rng):
     r = rng.random()
     k = 1 if r < 0.5 else 2 if r < 0.85 else 3
@@ -152,6 +175,15 @@ def generate(rng, tier):
         lim = rand_limit(rng, allow0=False)   # limit=0 is outside the property's quantifier (pandas rejects it only on non-empty objects)
         tag = 'fillna-%s/%s/%s' % (kind, '+'.join(m.split(':')[0] for m in ms), 'lim' if lim != 'N' else 'nolim')
         yield dict(tag=tag, lines=['(fill fillna-%s %s %s %s)' % (kind, enc_obj(kind, x), enc_methods(ms, sp), lim)])
+    # index orders: the label-free methods must behave the same on ANY index (the others: see ASSUMPTIONS)
+    for _ in range(n_rand // 7):
+        kind = rng.choice(['s', 'df'])
+        x, _ = make_obj(rng, kind, rng.choice([2, 3, 4, 5, 6, 8]))
+        x, how = reorder_index(rng, x)
+        ms = [rng.choice(LABEL_FREE) for _ in range(rng.choice([1, 1, 2, 3]))]
+        lim = rand_limit(rng, allow0=False)
+        tag = 'fillna-%s/%s/%s+%s-index' % (kind, '+'.join(m.split(':')[0] for m in ms), 'lim' if lim != 'N' else 'nolim', how)
+        yield dict(tag=tag, lines=['(fill fillna-%s %s %s %s)' % (kind, enc_obj(kind, x), enc_methods(ms, 'M'), lim)])
     if rng.random() < 2:   # method = None / [] returns the input
         x, _ = make_obj(rng, 's', 4)
         yield dict(tag='fillna-s/none', lines=['(fill fillna-s %s N N)' % enc_obj('s', x), '(fill fillna-s %s (M) I:1)' % enc_obj('s', x)])
@@ -326,10 +358,14 @@ def laws(rng, tier, ctx):
         n = rng.choice([0, 1, 2, 3, 5, 6, 8, 10])
         x, _ = make_obj(rng, kind, n)
         ms, sp = rand_methods(rng)
+        how = None
+        if kind in ('s', 'df') and n >= 2 and rng.random() < 0.2:
+            x, how = reorder_index(rng, x)
+            ms = [rng.choice(LABEL_FREE) for _ in ms]
         lim_a = rand_limit(rng, False)
         lim = dec_limit(lim_a)
         line = '(fill fillna-%s %s %s %s)' % (kind, enc_obj(kind, x), enc_methods(ms, sp), lim_a)
-        case = dict(tag='law-fillna', lines=[line])
+        case = dict(tag='law-fillna' + ('+%s-index' % how if how else ''), lines=[line])
         before = W.snapshot(x)
         try:
             res = pyg_base.df_fillna(x, dec_methods(proto.parse(enc_methods(ms, sp))), limit=lim)
@@ -356,7 +392,7 @@ def laws(rng, tier, ctx):
                           'got %s %s, expected %s %s' % (rlabels if kind in ('s', 'df') else '', rcols, elabels if kind in ('s', 'df') else '', ecols))
             continue
         # a non-NaN cell is never changed (rows identified by label for pandas objects)
-        if kind in ('s', 'df'):
+        if kind in ('s', 'df') and len(set(labels)) == len(labels):
             pos = {l: i for i, l in enumerate(labels)}
             for j, rc in enumerate(rcols):
                 for l, v in zip(rlabels, rc):
@@ -393,9 +429,49 @@ def laws(rng, tier, ctx):
             yield Finding('violation', case, 'the input object was modified')
         elif (kind in ('s', 'df') and rl != el) or len(rc) != len(ec) or not all(same_cols(a, b) for a, b in zip(rc, ec)):
             yield Finding('violation', case, 'nona did not remove exactly the all-NaN rows: %s %s' % (rl, rc))
+    # nona(x, edge = 1 / -1): only the all-NaN rows at ONE end go (interior ones stay); given an array the result is the
+    # values of the result for the corresponding Series / DataFrame (the docstring: nona(np.array([1,nan,2,3]), edge = 1) is a)
+    for _ in range(m_cases // 4):
+        kind = rng.choice(['s', 'df', 'a1', 'a1', 'a2', 'a2'])
+        n = rng.choice([0, 1, 3, 5, 8])
+        x, _ = make_obj(rng, kind, n)
+        e = rng.choice([1, -1])
+        case = dict(tag='law-nona-edge', lines=['(fill nona-%s %s I:%d)' % (kind, enc_obj(kind, x), e)])
+        before = W.snapshot(x)
+        try:
+            res = pyg_base.nona(x, edge=e)
+        except Exception as ex:
+            yield Finding('violation', case, 'nona(x, edge=%d) raised %s: %s' % (e, type(ex).__name__, str(ex)[:100]))
+            continue
+        count += 1
+        labels, cols = as_rows(kind, x)
+        keep = [any(not _isnan(c[i]) for c in cols) for i in range(n)]
+        if True in keep:
+            sel = list(range(keep.index(True), n)) if e == -1 else list(range(0, n - keep[::-1].index(True)))
+        else:
+            sel = []
+        el, ec = [labels[i] for i in sel], [[c[i] for i in sel] for c in cols]
+        if not W.same_pd(x, before):
+            yield Finding('violation', case, 'the input object was modified')
+            continue
+        if res is None or (kind in ('a1', 'a2')) != isinstance(res, np.ndarray):
+            yield Finding('violation', case, 'nona(x, edge=%d) returned a %s' % (e, type(res).__name__))
+            continue
+        rl, rc = as_rows(kind, res)
+        if (kind in ('s', 'df') and rl != el) or len(rc) != len(ec) or not all(same_cols(a, b) for a, b in zip(rc, ec)):
+            yield Finding('violation', case, NONA_EDGE_MSG % (e, 'last' if e == 1 else 'first') + ': got %s %s, the statement gives %s %s'
+                          % (rl if kind in ('s', 'df') else '', rc, el if kind in ('s', 'df') else '', ec))
+            continue
+        if kind in ('a1', 'a2'):
+            p = pd.Series(x, index(rng, n), dtype=float) if kind == 'a1' else pd.DataFrame(x, index(rng, n), dtype=float)
+            pres = pyg_base.nona(p, edge=e)
+            count += 1
+            if not W.same_pd(np.asarray(pres.values, dtype=float).reshape(res.shape) if pres.values.size == res.size else pres.values, res):
+                yield Finding('violation', case, 'array result differs from the values of the Series/DataFrame result: %s vs %s' % (res.tolist(), pres.values.tolist()))
     yield count
 
 
+NONA_EDGE_MSG = 'nona(x, edge=%d) does not keep exactly the rows up to / from the %s row holding a value'
 MATCHERS = {}
 
 shrink = W.shrink
